@@ -166,9 +166,9 @@ func parseJSONPointCoords(
 		if !rcoords.Exists() {
 			return coords, nil, errCoordinatesMissing
 		}
-		if !rcoords.IsArray() {
-			return coords, nil, errCoordinatesInvalid
-		}
+	}
+	if !rcoords.IsArray() {
+		return coords, nil, errCoordinatesInvalid
 	}
 	var err error
 	var count int
